@@ -428,6 +428,52 @@ def _(vals, func, result):
     return n_calls(func) == 1
 
 
+# ------------------------------------------------------------------------------------ safe_eval with the NaN check on
+def _is_excel_scalar(v):
+    """What a cell can hold: an error value, text, a logical, or a finite number (a Python int only while it is a number
+    to numpy and to float)."""
+    import math
+    from formulas.tokens.operand import XlError
+    if isinstance(v, (XlError, str, bool)):
+        return True
+    if isinstance(v, int):
+        return -2 ** 63 <= v < 2 ** 64
+    return isinstance(v, float) and math.isfinite(v)
+
+
+from pyvc.contract import RealT as _RealT, IntT as _IntT, BoolT as _BoolT
+Kernel = FnT(ANY_OUTCOME, result=OneOf(ErrT(), StrT(), _RealT(nonfinite=True), _IntT(), _BoolT(), ConstT(None)))
+c_sen = Contract(_some_safe_eval, dict(vals=TupleT(Scalar, Scalar)), 'C11', name='wrap_ufunc.safe_eval[check_nan]', use=[],
+                 cells=dict(func=Kernel, input_parser=ConstT(lambda *a: a), check_nan=ConstT(True)), float_mode='opaque')
+CONTRACTS.append(c_sen)
+
+
+@c_sen.ensures('whatever-the-kernel-returns-the-element-is-an-excel-value', 'P')
+def _(vals, func, result):
+    # NaN, infinities, None and integers beyond the machine range never reach a cell
+    return _is_excel_scalar(result)
+
+
+@c_sen.ensures('finite-numbers-text-and-errors-pass-unchanged', 'P')
+def _(vals, func, result):
+    from formulas.tokens.operand import XlError
+    if any(isinstance(v, XlError) for v in vals):
+        return True
+    k, o = (func.outcomes if hasattr(func, 'outcomes') else [c[2] for c in func.calls])[0]
+    return k != 'return' or not _is_excel_scalar(o) or result is o or result == o
+
+
+@c_sen.raises(Exception, 'only-other-exception-kinds-escape-to-wrap_func', 'S')
+def _(vals, func, exc):
+    return raised_by(exc, func) and not isinstance(exc, (_E.FoundError, ValueError, TypeError))
+
+
+@c_sen.canary('canary:kernel-result-always-returned')
+def _(vals, func, result):
+    k, o = (func.outcomes if hasattr(func, 'outcomes') else [c[2] for c in func.calls])[0]
+    return k == 'return' and result is o
+
+
 # ------------------------------------------------------------------------------------ get_error / convert_nan
 from pyvc.contract import RealT, IntT, BoolT
 Value = OneOf(RealT(), IntT(), BoolT(), StrT(), ErrT(), ConstT(sh.EMPTY))
